@@ -41,7 +41,7 @@ KINDS = ["str", "bytes", "bytearray", "list", "liststr", "tuple", "gen", "genstr
 STAT = [100, 101, 199, 200, 201, 204, 205, 206, 301, 302, 304, 400, 404, 500, 599, HTTPStatus.OK, HTTPStatus.NO_CONTENT,
         "200 OK", "204 NO CONTENT", "304 whatever", "404 NOT FOUND", "299 custom reason"]
 METHODS = ["GET", "HEAD", "POST"]
-CLS = [None, "correct", "wrong"]
+CLS = [None, "correct", "wrong", "twice"]
 LOCS = [None, "/rel?x=1", "http://é.example/pä th?q=ü", "//other/p", "test", "../x?q=ü", "/docs/handbuch#übersicht ä", "http://é.example/p?q=1#第一章"]
 
 
@@ -161,6 +161,10 @@ def check_cell(rec, W, cell):
     r = Response(body, status=status, direct_passthrough=(kind in ("fw", "wrapfile")))
     if cl == "correct":
         r.headers["Content-Length"] = str(len(expected))
+    elif cl == "twice":
+        # the length is in the header list twice (a middleware added what the framework had already set)
+        r.headers.add("Content-Length", str(len(expected)))
+        r.headers.add("Content-Length", str(len(expected)))
     elif cl == "wrong":
         r.headers["Content-Length"] = "3"
     if loc:
@@ -418,6 +422,47 @@ class World:
     pass
 
 
+def check_stream_histories(rec, W, rng, n):
+    """History on one response: the body is written through response.stream, replaced through set_data / .data, looked
+    at, made conditional - in any order.  Whatever Content-Length is served equals the bytes that are served."""
+    Response, create_environ = W.Response, W.create_environ
+    for _ in range(n):
+        ops = [rng.choice(["write", "write", "writelines", "set_data", "data", "get_data", "touch_stream", "conditional", "calc"]) for _ in range(rng.randint(2, 6))]
+        r = Response()
+        case = {"part": "stream-history", "ops": ops}
+        rec.case()
+        rec.nontrivial(("stream-history", tuple(ops)))
+        rec.observe("stream_histories")
+        try:
+            for op in ops:
+                if op == "write":
+                    r.stream.write(rng.choice(["ab", "h\u00e9", ""]))
+                elif op == "writelines":
+                    r.stream.writelines(["x", "yz"])
+                elif op == "set_data":
+                    r.set_data(rng.choice(["hello", b"bytes!", ""]))
+                elif op == "data":
+                    r.data = "w\u00f6rld"
+                elif op == "get_data":
+                    r.get_data()
+                elif op == "touch_stream":
+                    r.stream  # noqa: B018
+                elif op == "conditional":
+                    r.make_conditional(create_environ("/"))
+                else:
+                    r.calculate_content_length()
+            it, st, hd = r.get_wsgi_response(create_environ("/"))
+            body = b"".join(it)
+            if hasattr(it, "close"):
+                it.close()
+        except Exception as e:  # noqa: BLE001
+            rec.violation(f"C05/stream-history-raises-{type(e).__name__}", f"{e!r}; {case}", case, monitor="H2")
+            continue
+        cls_ = [v for k, v in hd if k.lower() == "content-length"]
+        if len(cls_) > 1 or (cls_ and int(cls_[0]) != len(body)):
+            rec.violation("C05/H2-content-length-mismatch", f"{ops}: Content-Length {cls_} but {len(body)} body bytes were produced ({body!r})", case, monitor="H2")
+
+
 def world():
     from werkzeug.test import create_environ
     from werkzeug.wrappers import Response
@@ -651,6 +696,8 @@ def run(shard, rec, rng):
     if shard["index"] == 0:
         check_range_close(rec, W)
         check_reuse_and_faulty_callback(rec, W)
+    if shard["index"] % 4 == 1:
+        check_stream_histories(rec, W, rng, 400)
     phase = int(shard["_seed"]) % cfg["stride"]
     n = 0
     for cell in itertools.product(KINDS, STAT, METHODS, CLS, LOCS, [True, False], [0, 2], [False, True]):
